@@ -40,6 +40,38 @@ class TwoArgErr(Exception):
         self.code = code
 
 
+def _boom(code):
+    raise ChildErr(code)
+
+
+class BadLoad:
+    """a return value that can be pickled in the child but whose unpickling raises in the parent"""
+    def __init__(self, code):
+        self.code = code
+
+    def __reduce__(self):
+        return (_boom, (self.code,))
+
+
+MID_MARK = b'KILLED-IN-THE-MIDDLE-OF-THIS-MESSAGE'
+
+
+def _install_partial_send(ready):
+    """child side, phase 'mid': the message carrying the marked result is cut after its length prefix - the child then
+    signals the parent and waits to be killed, as if the kill had landed in the middle of a large write"""
+    import multiprocessing.connection as mc
+    import struct
+    orig = mc.Connection._send_bytes
+
+    def send_bytes(self, buf):
+        if MID_MARK in bytes(buf[:4096]):
+            self._send(struct.pack('!i', len(buf)))
+            ready.set()
+            time.sleep(60)
+        return orig(self, buf)
+    mc.Connection._send_bytes = send_bytes
+
+
 def _hold(ready):
     ready.set()
     time.sleep(60)
@@ -52,6 +84,9 @@ def target(kind, arg, phase, ready):
         time.sleep(60)
     if phase == 'after':
         multiprocessing.util.Finalize(None, _hold, args=(ready,), exitpriority=100)
+    if phase == 'mid':
+        _install_partial_send(ready)
+        return MID_MARK * 3
     if kind == 0:
         return arg
     if kind == 1:
@@ -66,6 +101,8 @@ def target(kind, arg, phase, ready):
         sys.exit('bye')
     if kind == 8:
         raise TwoArgErr(arg, 'x')
+    if kind == 9:
+        return BadLoad(arg)
     # endings in which the child is gone without having delivered its outcome
     import threading
     if kind == 5:
@@ -179,7 +216,7 @@ def run_process_case(c):
     # agreement
     problems = []
     r, j, e = res['result'], res['join'], res['exception']
-    if r[0] == 'ret' and obs['exitcode'] not in (0, -15):
+    if r[0] == 'ret' and c['phase'] == 'none' and obs['exitcode'] != 0:      # nobody killed it: a normal return means exit code 0
         problems.append(f'result() returned {r[1]!r:.40} although the process ended with exit code {obs["exitcode"]}')
     if r[0] == 'ret':
         if j[0] != 'ret':
@@ -239,10 +276,12 @@ def gen_cases(rng, n):
         for sg in (15, 9, 10):
             for k, a in (endings if n >= 60 else [rng.choice(endings), rng.choice(endings)]):
                 cases.append({'kind': k, 'arg': a, 'phase': ph, 'sig': sg})
-    for k, a in ((5, 2), (6, 0), (7, 3), (7, 0), (7, 1), (8, 6)):
+    for k, a in ((5, 2), (6, 0), (7, 3), (7, 0), (7, 1), (8, 6), (9, 4)):
         cases.append({'kind': k, 'arg': a, 'phase': 'none', 'sig': 15})
     for sg in (15, 9):
         cases.append({'kind': 1, 'arg': 5, 'phase': 'between', 'sig': sg})
+    for sg in (15, 9, 10):
+        cases.append({'kind': 0, 'arg': 0, 'phase': 'mid', 'sig': sg})
     for (k, a) in ((0, 8), (1, 6)):
         for sg in (15, 9):
             cases.append({'kind': k, 'arg': a, 'phase': 'after', 'sig': sg})
@@ -258,9 +297,9 @@ def gen_cases(rng, n):
                           'first': ['join', 'result', 'exception', 'join'][i % 4]})
     for k, a in endings + [(8, 6)]:
         cases.append({'kind': k, 'arg': a, 'phase': 'none', 'sig': 15, 'thread': True, 'first': 'join'})
-    # every ending without a kill is run in every tier; the kill cases are sampled
-    base = [c for c in cases if c['phase'] == 'none']
-    rest = [c for c in cases if c['phase'] != 'none']
+    # every ending without a kill and the kills at the discrete points of the protocol run in every tier; the rest is sampled
+    base = [c for c in cases if c['phase'] in ('none', 'mid', 'between', 'after')]
+    rest = [c for c in cases if c['phase'] not in ('none', 'mid', 'between', 'after')]
     rng.shuffle(rest)
     cases = base + rest
     return cases[:n] if n < len(cases) else cases
@@ -313,7 +352,7 @@ def impl_main(argv):
 def coq_case(r):
     from harness.core import cbool, cnat, cz
     c, o = r['cfg'], r['obs']
-    ph = {'none': 0, 'before': 1, 'during': 2, 'between': 3, 'after': 4}[c['phase']]
+    ph = {'none': 0, 'before': 1, 'during': 2, 'between': 3, 'after': 4, 'mid': 2}[c['phase']]    # 'mid' (killed while writing a message): nothing complete is delivered, as for 'during'
     f = o['future']
     return (f"({cnat(c['kind'])}, {cz(c['arg'])}, {cnat(ph)}, {cz(c['sig'])}, ({cnat(f[0])}, {cnat(f[1])}, {cz(f[2] if isinstance(f[2], int) else 0)}), "
             f"{cbool(c.get('thread', False))})")
